@@ -53,3 +53,41 @@ def files_text(files, limit=4000):
             v = v.decode("utf-8", "replace")
         out[k] = v[:limit]
     return out
+
+
+# ---- ThreadSanitizer -----------------------------------------------------------------------------
+import glob as _glob
+import re as _re
+
+# TSan only understands synchronisation it intercepts. tokio hands a freshly initialised ScheduledIo to its I/O
+# driver thread through the kernel (epoll_ctl -> epoll_wait token), which TSan cannot see: every run that opens a
+# socket reports "races" inside tokio::runtime::io between RegistrationSet::allocate and Driver::turn /
+# ScheduledIo::wake. Those are not attributable to blockwatch and are filtered by the function named in the
+# report's SUMMARY line; everything else counts.
+_TSAN_IGNORE = _re.compile(r"tokio::runtime::io::|<mio::|mio::")
+_TSAN_SUMMARY = _re.compile(r"SUMMARY: ThreadSanitizer: ([a-z -]+?) (?:\S+ )?in (.+)")
+
+
+def tsan_env(env, logdir):
+    """Reports go to files (so stderr stays the program's own) and do not change the exit status."""
+    os.makedirs(logdir, exist_ok=True)
+    env["TSAN_OPTIONS"] = "halt_on_error=0:exitcode=0:log_path=%s" % os.path.join(logdir, "tsan")
+    return env
+
+
+def tsan_collect(logdir):
+    """-> (attributable report signatures, number of filtered tokio-io reports)."""
+    sigs, ignored = [], 0
+    for f in _glob.glob(os.path.join(logdir, "tsan.*")):
+        try:
+            text = open(f, errors="replace").read()
+        except OSError:
+            continue
+        for m in _TSAN_SUMMARY.finditer(text):
+            fn = m.group(2).strip()
+            if _TSAN_IGNORE.search(fn):
+                ignored += 1
+            else:
+                sigs.append("%s in %s" % (m.group(1).strip(), _re.sub(r"\s*\(\.llvm\.\d+\)", "", fn)[:120]))
+    shutil.rmtree(logdir, ignore_errors=True)
+    return sigs, ignored
